@@ -8,7 +8,7 @@ from . import common
 from .common import log
 
 
-def run_cases(prop, name, cases, events=False, evfilter=None, timeout_s=10, xml=False):
+def run_cases(prop, name, cases, events=False, evfilter=None, timeout_s=10, xml=False, retry_timeouts=True, threads=None):
     """Write the case descriptors, run them through `pvh_delta run` (isolated children), return observations."""
     os.makedirs(common.WORK, exist_ok=True)
     cases_path = os.path.join(common.WORK, "%s-%s-cases.ndjson" % (prop, name))
@@ -22,10 +22,23 @@ def run_cases(prop, name, cases, events=False, evfilter=None, timeout_s=10, xml=
     env = {"PENNE_REPO": common.REPO}
     if evfilter:
         env["PVH_EVFILTER"] = ",".join(evfilter)
+    if threads:
+        env["PVH_THREADS"] = str(threads)
     common.pvh(args, exe_name="pvh_delta", env=env, timeout=7200)
     obs = common.read_ndjson(obs_path)
     if len(obs) != len(cases):
         raise common.ToolError("pvh_delta returned %d observations for %d cases" % (len(obs), len(cases)))
+    # A silent child is only a hang if it stays silent when the machine has time for it: on a box shared with other
+    # checks (load average > 100 was seen) a 48 KB nesting whose dump is quadratic took longer than 10 s.  Cases that
+    # timed out are run once more, a few at a time, with a generous limit; what is silent then is reported.
+    late = [k for k, o in enumerate(obs) if o.get("o") == "timeout"]
+    if late and retry_timeouts and len(late) <= 40:
+        again = run_cases(prop, name + "-late", [cases[k] for k in late], events=events, evfilter=evfilter,
+                          timeout_s=max(180, 12 * timeout_s), xml=xml, retry_timeouts=False, threads=2)
+        for k, o in zip(late, again):
+            if o.get("o") != "timeout":
+                log("[run] %s/%s case %d answered after the first time limit (%s): machine load, not a hang" % (prop, name, k, o.get("o")))
+            obs[k] = o
     for o in obs:
         if o.get("o") == "toolerror":
             raise common.ToolError("pvh_delta worker failed: %s" % json.dumps(o)[:400])
